@@ -131,6 +131,44 @@ def p_workq_roundtrip(chk):
     chk.prove("jobs.workq.getstate_setstate", harness, ex, targets=[gs, ss], replay=replay)
 
 
+def p_savedb(chk):
+    """qserve.Main.savedb: whenever a data directory is configured the whole db is pickled
+    (unconditionally: the counter is state even when no job is left)"""
+    from pyvc import fsmodel
+    ex = Explorer()
+    fsmodel.install(ex)
+    fn = ex.function(QSERVE, "Main.savedb")
+    dumped = []
+    ex.models["pickle.dump"] = Model("pickle.dump", lambda I, obj, f, *a: dumped.append((obj, f)))
+    ex.truthy_hooks["anydict"] = lambda I, d: I.decide(d.fields["nonempty"])
+
+    def harness(I):
+        del dumped[:]
+        has_path = I.decide(I.sym_bool("data_dir_configured").z)
+        qpath = I.sym_str("qpath") if has_path else None
+        if has_path:
+            I.assume(z3.Length(qpath.z) > 0)
+        workq = PObj("workq", {"id2job": PObj("anydict", {"nonempty": I.sym_bool("has_jobs").z}), "count": I.sym_int("count")})
+        db = PObj("db", {"workq": workq, "key2data": PObj("anydict", {"nonempty": I.sym_bool("has_keys").z})})
+        main = PObj(fn.cls, {"qpath": qpath, "db": db})
+        out = ex.run_function(I, fn, [main])
+        I.oblige("no_raise", out.returned)
+        if has_path:
+            I.oblige("state_is_saved_whenever_a_data_dir_is_configured", len(dumped) == 1 and dumped[0][0] is db)
+            opened = [e for e in fsmodel.trace(I) if e[0] == "open_w"]
+            I.oblige("saved_to_the_configured_path", len(opened) == 1 and opened[0][1] is qpath)
+        else:
+            I.oblige("nothing_written_without_a_data_dir", len(dumped) == 0)
+
+    chk.prove("qserve.Main.savedb", harness, ex, targets=[fn])
+    import ast
+    from pyvc import source
+    run = ast.unparse(source.module(QSERVE).find("Main.run"))
+    chk.static("qserve.Main.run.saves_in_finally", "finally:\n            self.savedb()" in run or "finally:\n        self.savedb()" in run, "savedb() in the server loop's finally")
+    ld = ast.unparse(source.module(QSERVE).find("Main.loaddb"))
+    chk.static("qserve.Main.loaddb.loads_the_saved_file_when_present", "if qpath and os.path.exists(qpath):" in ld and "self.db = pickle.load(q_file)" in ld, "loaddb restores whenever the file exists")
+
+
 def replay(model, obligation):
     r = bounded_search(3, 0, 500)
     if r["failure"]:
@@ -217,7 +255,7 @@ def bounded(chk):
 def run(chk):
     import os
     only = os.environ.get("VERIF_ONLY")
-    for name, fn in [("job", p_job_roundtrip), ("workq", p_workq_roundtrip), ("bounded", bounded)]:
+    for name, fn in [("job", p_job_roundtrip), ("workq", p_workq_roundtrip), ("savedb", p_savedb), ("bounded", bounded)]:
         if only and name not in only.split(","):
             continue
         fn(chk)
